@@ -275,7 +275,7 @@ pub fn evaluate(input: &Input, bytes: &[u8], rng: &mut Rng, tally: &mut Tally) -
 
 // ---------------------------------------------------------------- fault injectors (TZif)
 
-pub const FAULT_KINDS: [&str; 26] = [
+pub const FAULT_KINDS: [&str; 27] = [
     "magic_overwritten",
     "version_unsupported",
     "trailing_bytes_after_v1",
@@ -302,6 +302,7 @@ pub const FAULT_KINDS: [&str; 26] = [
     "isdst_not_boolean",
     "utoff_extreme",
     "time_extreme",
+    "leap_extreme",
 ];
 
 const BAD_FOOTERS: [&str; 12] = [
@@ -565,6 +566,32 @@ pub fn inject(
                 out[at..at + 4].copy_from_slice(&v32.to_be_bytes());
             }
             Some((out, Expect::Survive, format!("transition {} moved to {}", k, v)))
+        }
+        "leap_extreme" => {
+            let rec = lay.time_size + 4;
+            let n = (lay.leaps.1 - lay.leaps.0) / rec;
+            if n == 0 {
+                return None;
+            }
+            let k = rng.usize(n);
+            let at = lay.leaps.0 + k * rec;
+            let mut desc = String::new();
+            if rng.chance(2, 3) {
+                let v = *rng.pick(&[i64::MIN, i64::MIN + 1, i64::MAX, i64::MAX - 1, -1, 0, 1i64 << 62, -(1i64 << 62)]);
+                if lay.time_size == 8 {
+                    out[at..at + 8].copy_from_slice(&v.to_be_bytes());
+                } else {
+                    let v32 = if v < 0 { i32::MIN } else { i32::MAX };
+                    out[at..at + 4].copy_from_slice(&v32.to_be_bytes());
+                }
+                desc.push_str(&format!("time of leap record {} set to {};", k, v));
+            }
+            if desc.is_empty() || rng.chance(1, 2) {
+                let c = *rng.pick(&[i32::MIN, i32::MIN + 1, i32::MAX, -1, 0, 2, 1 << 30]);
+                out[at + lay.time_size..at + rec].copy_from_slice(&c.to_be_bytes());
+                desc.push_str(&format!(" correction of leap record {} set to {};", k, c));
+            }
+            Some((out, Expect::Survive, desc))
         }
         "isdst_not_boolean" => {
             let k = rng.usize(lay.typecnt);
@@ -839,6 +866,24 @@ pub fn shard(part: Part, seed: u64, tier: &str, from: u64, to: u64, out: &str) -
                     let g2 = gen::gen_zone(&mut rng, &zone_cfg(tier));
                     tzif::write(&g2.model, &g2.opts).0
                 };
+                // B3. a UT/local indicator set without its standard/wall indicator (RFC 8536: MUST
+                // NOT happen): an inconsistent file, written by the same writer
+                {
+                    let nt = g.model.types.len();
+                    let mut o2 = g.opts.clone();
+                    o2.isut = (0..nt).map(|_| rng.below(2) as u8).collect();
+                    let one = rng.usize(nt);
+                    o2.isut[one] = 1;
+                    if rng.chance(1, 2) {
+                        o2.isstd = vec![];
+                    } else {
+                        o2.isstd = o2.isut.clone();
+                        o2.isstd[one] = 0;
+                    }
+                    let (fb, _) = tzif::write(&g.model, &o2);
+                    *sink.sh.fired.entry("isut_without_isstd".into()).or_insert(0) += 1;
+                    sink.eval(Input { mode: "tzif".into(), hex: String::new(), expect: Expect::Reject, expected_debug: None, what: format!("{}; fault: UT/local indicator of type {} set while its standard/wall indicator is {}", what, one, if o2.isstd.is_empty() { "absent" } else { "0" }) }, &fb, &mut rng);
+                }
                 for _ in 0..faults_per_file(tier) {
                     let kind = *rng.pick(&FAULT_KINDS);
                     if let Some((fb, expect, desc)) = inject(kind, &bytes, &lay, &other, &mut rng) {
